@@ -482,3 +482,15 @@ Proof.
     + destruct (str_eqb fl (lit "generic")); discriminate.
   - vm_compute. split; reflexivity.
 Qed.
+
+(* the final save of the rebuild writes the file of every flavor the database holds a declaration of - loaded by
+   the command or not - in the order the walk met them, then the loaded flavors it holds nothing of (the real trace
+   is compared with this list on every run); a reader of other flavors than the killed command's is served too *)
+Example c08_rebuild_writes_every_flavor_of_the_database :
+  let L := lit "Linux64" in let D := lit "Darwin" in let G := lit "generic" in
+  let db := [(D, lit "b", lit "2"); (L, lit "a", lit "1"); (D, lit "b", lit "1")] in
+  map fst (persists false [L; G] db) = [D; L; G] /\
+  map (fun k => reader_answer [D; G] db (crash_caches false [L; G] db [] k) D) [0; 1; 2; 3] =
+    [rows_of D db; rows_of D db; rows_of D db; rows_of D db] /\
+  cache_rows (crash_caches false [L; G] db [] 1) D = Some [(lit "b", lit "2"); (lit "b", lit "1")].
+Proof. vm_compute. repeat split; reflexivity. Qed.
